@@ -84,6 +84,9 @@ def main(argv=None):
         with ctx.Pool(min(a.jobs, len(jobs)), maxtasksperchild=8) as pool:
             for r in pool.imap_unordered(_worker, jobs, chunksize=1):
                 results.append(r)
+                if os.environ.get("VERIF_VERBOSE"):
+                    print(f"  item {json.dumps(r['params'], default=str)} paths={r['paths']} obl={r['obligations']} dis={r['discharged']} "
+                          f"viol={len(r['violations'])} inc={[i.get('reason') for i in r['inconclusive']][:3]} wall={r['wall_s']}s", flush=True)
     results.sort(key=lambda r: json.dumps(r["params"], sort_keys=True, default=str))
 
     # ---- aggregate
